@@ -665,7 +665,7 @@ func gen(g *core.G) {
 		}
 	}
 
-	// 2. random histories of length 40 over random trees of depth <= 3
+	// 2. random histories of length 40 (every third one: 3..8) over random trees of depth <= 3
 	r := g.Rng
 	names := []string{nm("type", "a", "r"), nm("type", "A", "r"), nm("type", "b", "r"), nm("type", "m::a", "r"), nm("type", "M::A", "r"),
 		nm("type", "::a", "r"), nm("function", "a", "r"), nm("type", "a", "o")}
@@ -703,7 +703,11 @@ func gen(g *core.G) {
 			local[j] = names[r.Intn(len(names))]
 		}
 		var steps []string
-		for j := 0; j < 40; j++ {
+		hl := 40
+		if i%3 == 0 {
+			hl = 3 + r.Intn(6) // short histories too: a failure is then reported with a short witness
+		}
+		for j := 0; j < hl; j++ {
 			l := r.Intn(nl)
 			x := local[r.Intn(k)]
 			switch r.Intn(10) {
